@@ -21,6 +21,11 @@ func att(p simmaster.Plan) e1.Attempt {
 
 func clean() e1.Attempt { return att(simmaster.NoFault()) }
 
+func deliveriesOf(hist string) []ref.ExpTx {
+	exp, _ := ref.Expect(served(hist), ref.Position{File: f1, Pos: 4})
+	return exp
+}
+
 func served(hist string) []*ref.AEvent {
 	h := e1.Hist(hist)
 	s, err := h.Serve(f1, 4)
@@ -57,10 +62,7 @@ func stopScenarios(hist string, full bool) []e1.Scenario {
 	var out []e1.Scenario
 	n := len(served(hist))
 	inj := injections(hist)
-	ntx := 3
-	if hist == "H0" {
-		ntx = 1
-	}
+	ntx := len(deliveriesOf(hist))
 	for _, pacing := range []string{"first", "lock"} {
 		// (a) master-side faults at every packet index
 		for _, kind := range []string{"fin", "rst", "short", "oos", "err", "eof"} {
@@ -154,7 +156,7 @@ func stopScenarios(hist string, full bool) []e1.Scenario {
 			}
 		}
 		// (d) failures before a connection / a stream exists
-		for _, pre := range []string{"err_greeting", "fin_after_greeting", "err_auth", "err_query", "fin_after_dump", "err_dump"} {
+		for _, pre := range []string{"err_greeting", "fin_after_greeting", "err_auth", "fin_after_auth", "err_query", "fin_after_query", "rst_after_query", "fin_after_dump", "err_dump"} {
 			sc := base(fmt.Sprintf("%s/%s/pre-%s", hist, pacing, pre), hist, pacing)
 			sc.Attempts = []e1.Attempt{att(simmaster.Plan{Pre: pre, At: -1, Final: "eof"})}
 			out = append(out, sc)
@@ -197,7 +199,7 @@ func retryScenarios(hist string, full bool) []e1.Scenario {
 				add(fmt.Sprintf("cancel-%s@%d", k, j), a, nil)
 			}
 		}
-		for k := 0; k < 3; k++ {
+		for k := 0; k < len(deliveriesOf(hist)); k++ {
 			for _, tk := range []string{"handler_enter", "handler_exit"} {
 				a := att(simmaster.Plan{At: -1, Final: "silent"})
 				a.Cancel = &e1.Trigger{Kind: tk, N: k}
@@ -222,7 +224,7 @@ func retryScenarios(hist string, full bool) []e1.Scenario {
 				add(fmt.Sprintf("inject-%s@%d", name, at), att(simmaster.Plan{At: at, Kind: "inject", Inject: inj[name], Final: "silent"}), nil)
 			}
 		}
-		for _, pre := range []string{"err_greeting", "fin_after_greeting", "err_auth", "err_query", "fin_after_dump"} {
+		for _, pre := range []string{"err_greeting", "fin_after_greeting", "err_auth", "fin_after_auth", "err_query", "fin_after_query", "rst_after_query", "fin_after_dump"} {
 			add("pre-"+pre, att(simmaster.Plan{Pre: pre, At: -1, Final: "eof"}), nil)
 		}
 		{
@@ -282,18 +284,25 @@ func grid(prop string, thorough bool) []Job {
 		if thorough {
 			addAll(stopScenarios("H1T", true), 2)
 			addAll(stopScenarios("H2", true), 2)
-			addAll(stopScenarios("H0", true), 3)
+			addAll(stopScenarios("H4", true), 2)
+			addAll(stopScenarios("H0", true), 4)
 		} else {
 			addAll(stopScenarios("H1T", false), 1)
-			addAll(stopScenarios("H0", false), 2)
+			addAll(stopScenarios("H4", false), 1)
+			addAll(stopScenarios("H0", false), 3)
 		}
 	case "C04":
 		if thorough {
 			addAll(retryScenarios("H1T", true), 2)
 			addAll(retryScenarios("H2", true), 2)
+			addAll(retryScenarios("H4", true), 1)
 		} else {
 			addAll(retryScenarios("H1T", false), 1)
-			addAll(retryScenarios("H2", false), 1)
+			for _, sc := range retryScenarios("H2", false) {
+				sc.DelayBound = true // context-bounded on H1T, delay-bounded on the rotation history
+				jobs = append(jobs, Job{Sc: sc, Bound: 2})
+			}
+			addAll(retrySimple("H4"), 2)
 		}
 	case "C07":
 		jobs = append(jobs, handshakeJobs(thorough)...)
@@ -379,6 +388,13 @@ func aliasJobs(thorough bool) []Job {
 		a := att(simmaster.Plan{At: 9, Kind: "fin", Final: "silent"})
 		sc.Attempts = []e1.Attempt{a, clean()}
 		jobs = append(jobs, Job{Sc: sc, Bound: bound})
+		for _, mode := range []string{"ok", "yield"} {
+			sc := base(fmt.Sprintf("H9/%s/%s", pacing, mode), "H9", pacing)
+			a := clean()
+			a.HandlerMode = mode
+			sc.Attempts = []e1.Attempt{a}
+			jobs = append(jobs, Job{Sc: sc, Bound: bound})
+		}
 		for _, mode := range []string{"ok", "scribble"} {
 			sc := base(fmt.Sprintf("H1/%s/%s", pacing, mode), "H1", pacing)
 			a := clean()
@@ -388,4 +404,18 @@ func aliasJobs(thorough bool) []Job {
 		}
 	}
 	return jobs
+}
+
+// retrySimple is retryScenarios without the two- and three-failure sequences.
+func retrySimple(hist string) []e1.Scenario {
+	var out []e1.Scenario
+	for _, sc := range retryScenarios(hist, false) {
+		if len(sc.Attempts) == 2 {
+			// the point of this history is the variety of commit units at the
+			// fault point, not deep interleavings: every deviation costs
+			sc.DelayBound = true
+			out = append(out, sc)
+		}
+	}
+	return out
 }
